@@ -386,7 +386,7 @@ func (a *authzWorld) probe(target string, o *world.Owner, kind string, role sign
 		}
 		commit := md.Commit + "|" + a.nextCommit(target)
 		req := world.StoreReq{Owner: ownerField, Signer: signer, Gateway: a.gw, Relayer: rel, MsgProv: provider, DataId: target, CommitId: commit,
-			Duration: 3600, Replica: 1, Timeout: 300, Size: 1000, Operation: op, Meta: meta, Alias: md.Alias}
+			Duration: 3600, Replica: 1, Timeout: 300, Size: 1000, Operation: op, Meta: meta, Alias: world.AliasOf(md.Alias)}
 		switch mut {
 		case "payload-altered":
 			req.Tamper = func(m *saotypes.MsgStore) { m.Proposal.Duration += 1; m.Proposal.Cid = world.Cid2 }
